@@ -85,4 +85,24 @@ def tsNormalize (legacy : Bool) (x : Ts) : M Ts :=
   if !legacy && !x.isFinite then raise (builtinExc K.valueError)
   else fun s => (tsLoop x, s)
 
+/-- what the numeric branch of `to_datetime` is given: besides the values the loop can run on, an int beyond the float
+range (`math.isfinite(10**400)` and `10**400 / 1000` both raise OverflowError) and a finite Decimal beyond the float
+range (`math.isfinite(Decimal('1E+999999'))` is False: refused by the guard; without the guard the loop runs on it
+exactly, as on any finite value) -/
+inductive TsIn where
+  | num (x : Ts)
+  | hugeInt
+  | hugeDec (neg : Bool) (n q : Nat)
+  deriving DecidableEq, Repr
+
+def tsNormalizeIn (legacy : Bool) : TsIn → M Ts
+  | .num x => tsNormalize legacy x
+  | .hugeInt => raise (builtinExc 106)                       -- OverflowError
+  | .hugeDec s n q => if legacy then tsNormalize true (.fin s n q) else raise (builtinExc K.valueError)
+
+/-- the numeric branch of `to_datetime` as a converter: normalise, then `utcfromtimestamp` (a component) -/
+def toDatetimeNumeric {V : Type} (legacy : Bool) (fromTs : Ts → M V) (x : TsIn) : M V := do
+  let y ← tsNormalizeIn legacy x
+  fromTs y
+
 end Utv.C04
